@@ -223,7 +223,7 @@ def c10_4(ctx, ss):
     a = [flow.expand(x) for x in c.args]
     if len(a) != 3 or c.keywords:
         raise AnchorMissing("format_descriptor call shape not understood")
-    mother_ok = txt(a[0]) in ("aliases.get(next(iter(decay_chain.keys())), next(iter(decay_chain.keys()))) if aliases else next(iter(decay_chain.keys()))",
+    mother_ok = txt(a[0]) in ("aliases.get(next(iter(decay_chain)), next(iter(decay_chain))) if aliases else next(iter(decay_chain))",
                               "aliases.get(next(iter(decay_chain)), next(iter(decay_chain))) if aliases else next(iter(decay_chain))")
     (ctx.holds if mother_ok else ctx.violation)("C10.4", k + " :: mother", where(ff, c),
                                                 "mother = alias-resolved key of the chain" if mother_ok else f"the descriptor's mother is `{txt(a[0])[:100]}`")
@@ -264,7 +264,7 @@ def c10_4(ctx, ss):
     # the expansion is stored back into the chain dictionary: that is how the parent level reads its daughters' descriptors
     sb = [s_ for s_ in pf.iter_stmts(ff.node.body) if isinstance(s_, ast.Assign) and isinstance(s_.targets[0], ast.Subscript)
           and txt(s_.targets[0].value) == "decay_chain" and txt(s_.value) == rn]
-    oksb = len(sb) == 1 and flow.text(sb[0].targets[0].slice) in ("next(iter(decay_chain.keys()))", "next(iter(decay_chain))") and flow.cfg.must_pass({flow.cfg.node_of(sb[0])})
+    oksb = len(sb) == 1 and flow.text(sb[0].targets[0].slice) in ("next(iter(decay_chain))", "next(iter(decay_chain))") and flow.cfg.must_pass({flow.cfg.node_of(sb[0])})
     (ctx.holds if oksb else ctx.violation)("C10.4", k + " :: store-back", where(ff, sb[0] if sb else ff.node),
                                            "the descriptors replace the mode list in the chain dictionary (read by the enclosing level)" if oksb
                                            else "the descriptors are not stored back under the chain's own key: the enclosing level would multiply out raw mode dictionaries")
